@@ -106,3 +106,111 @@ func Lenient(run *ev.Run) {
 		}
 	}
 }
+
+func showPairs(ps []*pair) string {
+	out := ""
+	for _, p := range ps {
+		if p == nil {
+			out += "<nil>;"
+		} else {
+			out += p.A + "," + p.B + ";"
+		}
+	}
+	return out
+}
+
+// LenientEnvelopes: the same for responses that wrap entities: finder results with and without metadata, get_all and
+// batch_get. A lenient client receives every entity that was decoded, partially filled where fields were missing.
+func LenientEnvelopes(run *ev.Run) {
+	ln, err := net.Listen("tcp", "127.0.0.1:0")
+	if err != nil {
+		run.Inconclusive("listen: " + err.Error())
+		return
+	}
+	var body string
+	srv := &http.Server{Handler: http.HandlerFunc(func(w http.ResponseWriter, r *http.Request) {
+		w.Header().Set("X-RestLi-Protocol-Version", "2.0.0")
+		w.Header().Set("Content-Type", "application/json")
+		w.Write([]byte(body))
+	})}
+	go srv.Serve(ln)
+	defer srv.Close()
+	base, _ := url.Parse("http://" + ln.Addr().String())
+	const paging = `"paging":{"count":10,"start":0,"links":[]}`
+	cases := []struct {
+		kind     string
+		body     string
+		missing  int
+		elements string // A,B; per element (batch: results of k1, k2)
+		metadata string
+	}{
+		{"finder-with-metadata", `{"elements":[{"a":"x","b":"y"},{"a":"x2","b":"y2"}],"metadata":{"a":"m","b":"n"},` + paging + `}`, 0, "x,y;x2,y2;", "m,n;"},
+		{"finder-with-metadata", `{"elements":[{"a":"x","b":"y"},{"a":"x2"}],"metadata":{"a":"m","b":"n"},` + paging + `}`, 1, "x,y;x2,;", "m,n;"},
+		{"finder-with-metadata", `{"metadata":{"a":"m"},"zz":{"q":1},"elements":[{"a":"x","b":"y"}],` + paging + `}`, 1, "x,y;", "m,;"},
+		{"finder-with-metadata", `{` + paging + `,"metadata":{"b":"n"},"elements":[{"b":"y"},{"a":"x2","b":"y2"}]}`, 2, ",y;x2,y2;", ",n;"},
+		{"finder", `{"elements":[{"a":"x","b":"y"},{"a":"x2","b":"y2"}],` + paging + `}`, 0, "x,y;x2,y2;", ""},
+		{"finder", `{"elements":[{"a":"x"},{"zz":1,"b":"y2"}],` + paging + `}`, 2, "x,;,y2;", ""},
+		{"get_all", `{` + paging + `,"elements":[{"a":"x","b":"y"},{"b":"y2"}]}`, 1, "x,y;,y2;", ""},
+		{"batch_get", `{"results":{"k1":{"a":"x","b":"y"},"k2":{"a":"x2","b":"y2"}},"statuses":{},"errors":{}}`, 0, "x,y;x2,y2;", ""},
+		{"batch_get", `{"results":{"k1":{"a":"x"},"k2":{"a":"x2","b":"y2"}},"statuses":{},"errors":{}}`, 1, "x,;x2,y2;", ""},
+		{"batch_get", `{"errors":{},"statuses":{},"results":{"k2":{"b":"y2"},"k1":{"a":"x","b":"y"}}}`, 1, "x,y;,y2;", ""},
+	}
+	for _, strict := range []bool{false, true} {
+		for _, c := range cases {
+			run.Eval(1)
+			run.Count("lenient_strict_envelope_calls", 1)
+			body = c.body
+			cl := &restli.Client{Client: http.DefaultClient, HostnameResolver: hostResolver{base}, StrictResponseDeserialization: strict}
+			rp := restli.ResourcePathString("/things")
+			var elements, metadata string
+			var err error
+			got := false
+			switch c.kind {
+			case "finder-with-metadata":
+				res, e := restli.FindWithMetadata[*pair, *pair](cl, context.Background(), rp, restli.QueryParamsString("q=f"))
+				err = e
+				if res != nil {
+					got, elements, metadata = true, showPairs(res.Elements), showPairs([]*pair{res.Metadata})
+				}
+			case "finder":
+				res, e := restli.Find[*pair](cl, context.Background(), rp, restli.QueryParamsString("q=f"))
+				err = e
+				if res != nil {
+					got, elements = true, showPairs(res.Elements)
+				}
+			case "get_all":
+				res, e := restli.GetAll[*pair](cl, context.Background(), rp, nil)
+				err = e
+				if res != nil {
+					got, elements = true, showPairs(res.Elements)
+				}
+			case "batch_get":
+				res, e := restli.BatchGet[string, *pair](cl, context.Background(), rp, []string{"k1", "k2"}, nil)
+				err = e
+				if res != nil {
+					got, elements = true, showPairs([]*pair{res.Results["k1"], res.Results["k2"]})
+				}
+			}
+			desc := map[string]any{"generation": GENERATION, "call": c.kind, "strict": strict, "response_body": c.body, "expected_missing_fields": c.missing,
+				"expected_entities": c.elements, "expected_metadata": c.metadata, "entities": elements, "metadata": metadata, "got_result": got}
+			if err != nil {
+				desc["error"] = err.Error()
+			}
+			mf, isMissing := err.(*restlicodec.MissingRequiredFieldsError)
+			mode := map[bool]string{true: "strict", false: "lenient"}[strict]
+			switch {
+			case !strict && err != nil:
+				run.Violation(GENERATION+"/client/"+c.kind+"/lenient-client-returned-error", desc)
+			case strict && c.missing == 0 && err != nil:
+				run.Violation(GENERATION+"/client/"+c.kind+"/strict-client-error-on-complete-response", desc)
+			case strict && c.missing > 0 && (!isMissing || len(mf.Fields) != c.missing):
+				run.Violation(GENERATION+"/client/"+c.kind+"/strict-client-did-not-report-missing-fields", desc)
+			case (!strict || c.missing == 0) && (!got || elements != c.elements || metadata != c.metadata):
+				run.Violation(GENERATION+"/client/"+c.kind+"/partially-filled-value-lost", desc)
+			default:
+				run.Distinct("client|" + c.kind + "|" + c.body + "|" + mode)
+			}
+		}
+	}
+}
+
